@@ -72,7 +72,7 @@ def bounded(rep, n):
                            'routine definitions and roles must agree. distinct = distinct generated texts that the generator accepted '
                            'and that contain at least one call site')
     from gen import scope
-    texts = [scope.build(sp) for sp in scope.sample(n, rep.seed + 17)]
+    texts = [scope.build(sp) for sp in scope.core_specs() + scope.sample(n, rep.seed + 17)]
     texts += [unparse(Gen(rep.seed * 100003 + i).module()) for i in range(n // 2)]
     import re
     for i, text in enumerate(texts):
